@@ -160,6 +160,7 @@ def run():
     # compared with nbdime's algorithm and its real cell predicates
     from . import align
     align.cell_align(chk, 2, 1 if chk.quick else 2, False)
+    align.cell_align(chk, 2 if chk.quick else 3, 0, False, kind="outputs")
     if chk.quick:
         pairs = corp.pairs(n_enum=1500, n_random=400, n_unrelated=80) + pair_sweep(chk, 150)
         file_every = 8
